@@ -18,7 +18,7 @@ From AV Require Import Base.Bytes Base.Outcome Hash.HashModel Spec.SpecOps Spec.
   Tree.SpecWF Tree.SpecWFReal Tree.RangeProofsCalc Tree.RangeProofsOps Tree.RangeProofsLoader Tree.RangeProofsReal Tree.RangeProofsParser Tree.RangeProofsNamed Tree.CopyProofsDefs Tree.RangeProofsInv Tree.Project Tree.RangeProofsProject Tree.RangeProofsReload
   Tree.CompatTyped Tree.CompatHist1 Tree.CompatHist4 Tree.RangeProofsAttach Tree.RangeProofsAttachCopy
   Tree.Serialize Tree.Files Tree.ProjectCanon Tree.RangeProofsReloadFile Tree.RangeProofsCanon Tree.RangeProofsMoveSame
-  Tree.OrdHist Tree.OrdHistReal Tree.OrdFrame Tree.WorldCheck Tree.RangeProofsCheck Tree.RangeProofsApi Tree.RangeProofsApiReal.
+  Tree.OrdHist Tree.OrdHistReal Tree.OrdFrame Tree.WorldCheck Tree.RangeProofsCheck Tree.RangeProofsApi Tree.RangeProofsApiReal Tree.RangeProofsShortFirst.
 From AV Require Hash.HashRealElement Hash.HashRealAttr Hash.HashRealEnum.
 From AV Require Xml.Serializer Xml.StrictValidDef Xml.RoundTripFile.
 From AV Require Xml.Parser.
@@ -612,3 +612,39 @@ Theorem C07_api_built_reloads_example :
       = Val (Parser.Ret t st) /\
     Parser.p_warnings st = [] /\ Parser.p_version st = REAL_LATEST.
 Proof. exact api_built_reloads_example. Qed.
+
+(* ------------------------------------------------------------------ SHORT-NAME first *)
+(* [F witness] known finding C07 insert-before-short-name (= C04's K04-front), on the current tables, in a world built by the
+   editing calls: ECUC-QUERY-EXPRESSION n10 in an AUTOSAR 4.0.1 file is identifiable and has MIXED content; the insertion range
+   of CONFIG-ELEMENT-DEF-GLOBAL-REF is (0, 1), create_sub_element_at(.., 0) succeeds and puts the new element in FRONT of the
+   SHORT-NAME.  The child list is still in specification order (Mixed: any order), but item_name (which reads the first item)
+   answers None while the path index keeps /n1/n3/n5/n7/n10; the loader (fix 44e5d22) reports RequiredSubelementMissing. *)
+Theorem C07_insert_before_short_name_refuted :
+  forall (tab_el tab_en : nametab) (root_attrs : list (N * cdata)),
+  exists (w : world) (h s c : id) (nh : node) (w' : world) (n ns : node),
+    run_ops RT tab_el tab_en ok_check REAL_LATEST root_attrs front_ops (mkWorld (fun _ => None) 0 [] []) = Val w /\
+    w_nodes w h = Some nh /\ n_content nh = [CElem s] /\
+    is_named_in_version RT (n_type nh) 1 = Val true /\ content_mode RT (n_type nh) = Val MMixed /\
+    item_name RT nh w = Val (OK (Some [110; 49; 48]), w) /\
+    calc_element_insert_range RT nh 959 1 w = Val (OK (0, 1), w) /\
+    e_create_sub_element_at RT REAL_LATEST h 959 0 w = Val (OK c, w') /\
+    w_nodes w' h = Some n /\ n_content n = [CElem c; CElem s] /\
+    w_nodes w' s = Some ns /\ n_name ns = name_short_name RT /\
+    Ordered RT (n_type n) 1 [Some 959; Some (name_short_name RT)] /\
+    item_name RT n w' = Val (OK None, w') /\
+    get_element_by_path 0 [47; 110; 49; 47; 110; 51; 47; 110; 53; 47; 110; 55; 47; 110; 49; 48] w' = Val (OK (Some h), w').
+Proof. exact insert_before_short_name. Qed.
+
+(* [U] for every identifiable type whose content is a Sequence, "SHORT-NAME first" IS part of specification order: in an
+   ordered child list nothing but (another) SHORT-NAME stands before a SHORT-NAME.  No table hypothesis. *)
+Theorem C07_ordered_short_first :
+  forall (T : tables) (ty : etype) (v : N) (items : list (option N)),
+  is_named_in_version T ty v = Val true -> content_mode T ty = Val MSequence ->
+  Ordered T ty v items ->
+  forall pre post a, items = pre ++ Some (name_short_name T) :: post -> In (Some a) pre -> a = name_short_name T.
+Proof. exact ordered_short_first. Qed.
+
+(* [F] on the current tables exactly two identifiable datatypes do not have Sequence content: 1298 (Choice) and 1923 (Mixed,
+   the type of the witness above) *)
+Theorem C07_named_nonseq_real : named_nonseq RT = [(1298, MChoice); (1923, MMixed)].
+Proof. exact named_nonseq_real. Qed.
